@@ -188,7 +188,7 @@ theorem selfMerge_no_growth {h : K → Nat} {m : HSet K} (inv : Inv h m) (hr : r
   have hall : rest m.buckets 0 m.buckets[0] = m.buckets.flatten := by
     simp only [rest]
     rw [← List.flatten_cons, List.getElem_cons_drop, List.drop_zero]
-  have hw := walkLoop_spec m.buckets (m.buckets.flatten.length + 1) j' p' st (by rw [r, hall]; omega)
+  have hw := walkLoop_spec m.buckets (2 * m.buckets.flatten.length + 2) j' p' st (by rw [r, hall]; omega)
   refine selfLoop_fix h m ?_ (fun j pre kv t hc => nextOf_in_chain inv.wf j pre kv t hc) _ j' p' _ ?_ hw
   · intro kv hkv
     have h1 : kv.2 = 1 := ones kv hkv
@@ -213,5 +213,236 @@ theorem sAddAll_self_no_growth {h : K → Nat} {m : HSet K} (inv : Inv h m) (hr 
   intro kv hkv
   have h1 : kv.2 = 1 := ones kv hkv
   exact sIns_member_fix inv hr (by rw [← h1]; exact hkv)
+
+/-! ## growth inside the enumeration -/
+
+/-- the settle loop only reads slots below the end fixed at construction -/
+theorem settleK_take (B : List (List (K × V))) (jEnd : Nat) :
+    ∀ (f i : Nat) (p : Option K), settleK B jEnd f i p = settleK (B.take jEnd) jEnd f i p := by
+  intro f
+  induction f with
+  | zero => intro i p; cases p <;> simp [settleK]
+  | succ f ih =>
+    intro i p
+    cases p with
+    | some k => simp [settleK]
+    | none =>
+      simp only [settleK]
+      by_cases hi : i < jEnd
+      · simp only [hi, if_true]
+        by_cases h1 : i + 1 < jEnd
+        · simp only [h1, if_true, List.getElem?_take]
+          cases B[i + 1]? with
+          | none => rfl
+          | some c => exact ih _ _
+        · simp only [h1, if_false]
+      · simp only [hi, if_false]
+
+/-- on the truncated array the node pointer still points into a chain of the whole table -/
+theorem settle_suffix_take (B : List (List (K × V))) (jEnd : Nat) :
+    ∀ (f j : Nat) (p : List (K × V)) (j' : Nat) (p' : List (K × V)),
+      settle (B.take jEnd) f j p = some (j', p') → (∃ b, p <:+ B.getD b []) → ∃ b, p' <:+ B.getD b [] := by
+  intro f
+  induction f with
+  | zero =>
+    intro j p j' p' e hs
+    cases p with
+    | nil => simp [settle] at e
+    | cons kv t =>
+      simp only [settle, Option.some.injEq, Prod.mk.injEq] at e
+      obtain ⟨rfl, rfl⟩ := e
+      exact hs
+  | succ f ih =>
+    intro j p j' p' e hs
+    cases p with
+    | cons kv t =>
+      simp only [settle, Option.some.injEq, Prod.mk.injEq] at e
+      obtain ⟨rfl, rfl⟩ := e
+      exact hs
+    | nil =>
+      simp only [settle] at e
+      by_cases hj : j < (B.take jEnd).length
+      · simp only [hj, if_true] at e
+        by_cases h1 : j + 1 < (B.take jEnd).length
+        · simp only [h1, if_true, List.getElem?_eq_getElem h1] at e
+          refine ih _ _ _ _ e ⟨j + 1, ?_⟩
+          have h2 : j + 1 < B.length := by
+            have := List.length_take (i := jEnd) (l := B); omega
+          rw [getD_eq h2, List.getElem_take]
+          exact List.suffix_refl _
+        · simp only [h1, if_false, Option.some.injEq, Prod.mk.injEq] at e
+          obtain ⟨rfl, rfl⟩ := e
+          exact ⟨0, List.nil_suffix⟩
+      · simp only [hj, if_false, Option.some.injEq, Prod.mk.injEq] at e
+        obtain ⟨rfl, rfl⟩ := e
+        exact ⟨0, List.nil_suffix⟩
+
+/-- the interleaved loop on a table its body no longer changes, with the end `jEnd` of an EARLIER, smaller array and the
+node pointer anywhere in a chain: it is the plain walk over the first `jEnd` slots -/
+theorem selfLoop_fix_take (h : K → Nat) (m : HSet K) (jEnd : Nat) (B' : List (List (K × Int)))
+    (hlen : B'.length = jEnd)
+    (hK : ∀ (f i : Nat) (p : Option K), settleK m.buckets jEnd f i p = settleK B' jEnd f i p)
+    (hsuf : ∀ (f j : Nat) (p : List (K × Int)) (j' : Nat) (p' : List (K × Int)),
+      settle B' f j p = some (j', p') → (∃ b, p <:+ m.buckets.getD b []) → ∃ b, p' <:+ m.buckets.getD b [])
+    (hfix : ∀ kv ∈ m.buckets.flatten, sIns h m kv.1 = m)
+    (hnext : ∀ j pre kv t, m.buckets.getD j [] = pre ++ kv :: t → nextOf h m kv.1 = some (headKey t)) :
+    ∀ (f j : Nat) (p es : List (K × Int)), (∃ b, p <:+ m.buckets.getD b []) →
+      walkLoop B' f j p = some es →
+      selfMergeLoop h jEnd f m j (headKey p) = some m := by
+  intro f
+  induction f with
+  | zero => intro j p es _ e; simp [walkLoop] at e
+  | succ f ih =>
+    intro j p es hs e
+    cases p with
+    | nil =>
+      simp only [walkLoop, hlen] at e
+      simp only [headKey, List.head?_nil, Option.map_none, selfMergeLoop]
+      by_cases hj : j < jEnd
+      · simp [hj] at e
+      · simp [hj]
+    | cons kv t =>
+      obtain ⟨b, pre, hpre⟩ := hs
+      have hmem : kv ∈ m.buckets.flatten := by
+        by_cases hb : b < m.buckets.length
+        · rw [getD_eq hb] at hpre
+          exact mem_flatten_get.mpr ⟨b, hb, by rw [← hpre]; simp⟩
+        · have : m.buckets.getD b [] = [] := by
+            simp [List.getD_eq_getElem?_getD, List.getElem?_eq_none (Nat.le_of_not_lt hb)]
+          rw [this] at hpre
+          simp at hpre
+      simp only [walkLoop] at e
+      cases hst : settle B' (B'.length + 1) j t with
+      | none => simp [hst] at e
+      | some r =>
+        obtain ⟨j', p'⟩ := r
+        simp only [hst, Option.map_eq_some_iff] at e
+        obtain ⟨es', e', _⟩ := e
+        have hk := settleK_of_settle B' _ _ _ _ _ hst
+        rw [hlen, ← hK] at hk
+        have hs' : ∃ b, p' <:+ m.buckets.getD b [] :=
+          hsuf _ _ _ _ _ hst ⟨b, pre ++ [kv], by rw [← hpre]; simp⟩
+        have hn := hnext b pre kv t hpre.symm
+        have hrec := ih j' p' es' hs' e'
+        simp only [headKey, List.head?_cons, Option.map_some, selfMergeLoop, hfix kv hmem, hn]
+        simp only [headKey] at hk hrec
+        simp only [hk, hrec]
+
+theorem flatten_length_sublist {α : Type} {L1 L2 : List (List α)} (hs : L1.Sublist L2) :
+    L1.flatten.length ≤ L2.flatten.length := by
+  induction hs with
+  | slnil => simp
+  | cons a _ ih => simp only [List.flatten_cons, List.length_append]; omega
+  | cons_cons a _ ih => simp only [List.flatten_cons, List.length_append]; omega
+
+/-- `operator[]` rehashes first: on a table that needs one growth it acts as on the grown table -/
+theorem sIns_via_rehash (h : K → Nat) (m : HSet K) (k : K) (hr1 : rehash h (rehash h m) = rehash h m) :
+    sIns h m k = sIns h (rehash h m) k := by
+  unfold sIns assign
+  have hi : index h (0 : Int) m k = index h 0 (rehash h m) k := by simp only [index, hr1]
+  rw [hi]
+
+/-- **`s << s` as coded when the first `(*this)[x]` grows the table** (and one growth is enough): the enumerator goes on
+in the NEW array with its OLD end and the re-linked node; every read is inside, the result is the grown table -/
+theorem selfMerge_one_growth {h : K → Nat} {m : HSet K} (inv : Inv h m) (ones : ∀ kv ∈ enum m, kv.2 = 1)
+    (hr1 : rehash h (rehash h m) = rehash h m) (hne : enum m ≠ []) : selfMerge h m = some (rehash h m) := by
+  have hpos := inv.wf.nb_pos
+  obtain ⟨inv1, habs⟩ := rehash_spec inv
+  have hmemiff : ∀ kv, kv ∈ enum (rehash h m) ↔ kv ∈ enum m := by
+    intro ⟨k, v⟩; rw [mem_enum_iff inv1, mem_enum_iff inv, habs]
+  have ones1 : ∀ kv ∈ enum (rehash h m), kv.2 = 1 := fun kv hkv => ones kv ((hmemiff kv).mp hkv)
+  have hfix1 : ∀ kv ∈ (rehash h m).buckets.flatten, sIns h (rehash h m) kv.1 = rehash h m := by
+    intro kv hkv
+    have h1 : kv.2 = 1 := ones1 kv hkv
+    exact sIns_member_fix inv1 hr1 (by rw [← h1]; exact hkv)
+  have hle : m.buckets.length ≤ (rehash h m).buckets.length := by
+    rcases rehash_cases h m with ⟨e, _⟩ | ⟨e, _⟩
+    · rw [e]; exact Nat.le_refl _
+    · rw [e]; omega
+  have hflen : (rehash h m).buckets.flatten.length = m.buckets.flatten.length := by
+    have c1 := inv1.count
+    have c := inv.count
+    simp only [enum] at c1 c
+    rcases rehash_cases h m with ⟨e, _⟩ | ⟨_, e, _⟩
+    · rw [e]
+    · omega
+  unfold selfMerge
+  rw [List.getElem?_eq_getElem hpos]
+  obtain ⟨j0, p0, e0, r0, st0⟩ := settle_spec m.buckets (m.buckets.length + 1) 0 m.buckets[0] hpos (by omega)
+  have hk0 := settleK_of_settle m.buckets _ _ _ _ _ e0
+  simp only [hk0]
+  have hall : rest m.buckets 0 m.buckets[0] = m.buckets.flatten := by
+    simp only [rest]
+    rw [← List.flatten_cons, List.getElem_cons_drop, List.drop_zero]
+  cases p0 with
+  | nil =>
+    exfalso
+    apply hne
+    have hj := st0.2 rfl
+    simp only [enum]
+    rw [← hall, ← r0]
+    simp only [rest, List.nil_append]
+    rw [List.drop_eq_nil_of_le (by omega)]
+    rfl
+  | cons kv t =>
+    have hj0 : j0 < m.buckets.length := st0.1 (by simp)
+    have hkv : kv ∈ enum m := by
+      simp only [enum]; rw [← hall, ← r0]; simp [rest]
+    have hkv1 : kv ∈ (rehash h m).buckets.flatten := (hmemiff kv).mpr hkv
+    obtain ⟨b, hb, hin⟩ := mem_flatten_get.mp hkv1
+    obtain ⟨pre, t1, hc⟩ := List.append_of_mem hin
+    have hcD : (rehash h m).buckets.getD b [] = pre ++ kv :: t1 := by rw [getD_eq hb]; exact hc
+    have hn := nextOf_in_chain inv1.wf b pre kv t1 hcD
+    have hs1 : sIns h m kv.1 = rehash h m := by rw [sIns_via_rehash h m kv.1 hr1]; exact hfix1 kv hkv1
+    have hfuel : 2 * m.buckets.flatten.length + 2 = (2 * m.buckets.flatten.length + 1) + 1 := by omega
+    rw [hfuel]
+    simp only [headKey, List.head?_cons, Option.map_some, selfMergeLoop, hs1, hn]
+    have hlen : ((rehash h m).buckets.take m.buckets.length).length = m.buckets.length := by
+      rw [List.length_take]; exact Nat.min_eq_left hle
+    obtain ⟨j1, p1, e1, r1, st1⟩ := settle_spec ((rehash h m).buckets.take m.buckets.length)
+      (((rehash h m).buckets.take m.buckets.length).length + 1) j0 t1 (by omega) (by omega)
+    have hk1 := settleK_of_settle _ _ _ _ _ _ e1
+    rw [hlen, ← settleK_take] at hk1
+    simp only [headKey] at hk1
+    simp only [hk1]
+    have ht1 : t1.length < m.buckets.flatten.length := by
+      have h1 : ((rehash h m).buckets[b]).length ≤ (rehash h m).buckets.flatten.length :=
+        (List.sublist_flatten_of_mem (List.getElem_mem hb)).length_le
+      rw [hc] at h1
+      simp only [List.length_append, List.length_cons] at h1
+      omega
+    have hd : ((((rehash h m).buckets.take m.buckets.length).drop (j0 + 1)).flatten).length ≤ m.buckets.flatten.length := by
+      rw [← hflen]
+      exact flatten_length_sublist ((List.drop_sublist _ _).trans (List.take_sublist _ _))
+    have hw := walkLoop_spec ((rehash h m).buckets.take m.buckets.length) (2 * m.buckets.flatten.length + 1) j1 p1 st1
+      (by rw [r1]; simp only [rest, List.length_append]; omega)
+    exact selfLoop_fix_take h (rehash h m) m.buckets.length _ hlen (settleK_take _ _) (settle_suffix_take _ _) hfix1
+      (fun j pre kv t hc => nextOf_in_chain inv1.wf j pre kv t hc) _ j1 p1 _
+      (settle_suffix_take _ _ _ _ _ _ _ e1 ⟨b, pre ++ [kv], by rw [hcD]; simp⟩) hw
+
+theorem rehash_fix_of_lt (h : K → Nat) (m : HM K V) (c : m.n < (m.buckets.length + 2) * 7 / 8) : rehash h m = m := by
+  have c' : m.n < (m.buckets.length + 2) * 7 / 8 ∨ m.buckets.length + 2 > 280000 ∨ m.rc > 1 := Or.inl c
+  unfold rehash; exact if_pos c'
+
+/-- a table within the intended load (what every history without shared handles gives) needs at most one growth -/
+theorem one_growth_of_load (h : K → Nat) {m : HM K V} (hpos : 0 < m.buckets.length) (l : LoadOK m) :
+    rehash h (rehash h m) = rehash h m := by
+  rcases rehash_cases h m with ⟨e, _⟩ | ⟨e1, e2, _, e4, _⟩
+  · rw [e, e]
+  · apply rehash_fix_of_lt
+    rw [e1, e2]
+    rcases (loadOK_iff m).mp l with l | l
+    · omega
+    · omega
+
+/-- **`s << s` as coded, for every set table within the intended load** (growth inside the enumeration included) -/
+theorem selfMerge_loaded {h : K → Nat} {m : HSet K} (inv : Inv h m) (ones : ∀ kv ∈ enum m, kv.2 = 1)
+    (l : LoadOK m) : selfMerge h m = some (rehash h m) := by
+  by_cases hne : enum m = []
+  · have h0 : m.n = 0 := by rw [inv.count, hne]; rfl
+    have hr : rehash h m = m := rehash_fix_of_lt h m (by have := inv.wf.nb_pos; omega)
+    rw [hr]
+    exact selfMerge_no_growth inv hr ones
+  · exact selfMerge_one_growth inv ones (one_growth_of_load h inv.wf.nb_pos l) hne
 
 end AslProofs.HashMapSelf
